@@ -83,7 +83,7 @@ func NewGen(r *rand.Rand, p Profile) *Gen {
 		p.MaxCases = 5
 	}
 	if len(p.TextPool) == 0 {
-		p.TextPool = []string{"Hello", "Bye now", "Hello", "A b c", "Prize!", "x", "Pok\uFFFDmon é", "三上 不čĠ"}
+		p.TextPool = []string{"Hello", "Bye now", "Hello", "A b c", "Prize!", "x", "Pok\uFFFDmon é", "三上 不čĠ", "two lines\n   of text"}
 	}
 	g := &Gen{R: r, P: p, Prog: &Program{AutoVars: map[string]AutoVar{}, Switches: map[string]string{}}, VarCands: map[int]bool{0: true, 1: true}, prevLeaves: map[string][]*Leaf{}}
 	return g
